@@ -378,7 +378,7 @@ def should_rerun_table(ctx: Ctx, rule: str) -> None:
             continue
         feasible.append(v)
     # a path that went through one validation iteration without raising stands for "all lists valid"
-    table_rule(ctx, rule, fref, feasible, spec, outcome, max_free=4,
+    table_rule(ctx, rule, fref, feasible, spec, outcome, max_free=6,
                construct="should_rerun: dry/flat/cloned -> False; foreign worker -> RuntimeError; invalid statuses or max_tries < 0 -> ValueError; "
                "status outside rerun set -> False; stop status seen -> False; max_tries == 1 -> False; else tries left")
     # which results are counted: tests without stateful objects count all shared results; setup tests the scope-filtered ones,
@@ -424,17 +424,17 @@ def should_rerun_table(ctx: Ctx, rule: str) -> None:
                 defaults_ok = False
     defaults_ok = defaults_ok and len(detail) >= 4
     # which default belongs to which mode: the narrow default under `replay`, the full universe otherwise
-    sel = [i for i in fn.node.body if isinstance(i, ast.If) and any(isinstance(x, ast.Assign) and ast.unparse(x.targets[0]) == "rerun_status" for x in i.body)]
+    # (if/else assignments are conditional expressions after normalisation)
+    sel = [s_ for s_ in fn.node.body if isinstance(s_, ast.Assign) and ast.unparse(s_.targets[0]) == "rerun_status" and isinstance(s_.value, ast.IfExp)]
     if len(sel) == 1:
-        i0 = sel[0]
+        ie = sel[0].value
         rep = norm.formula(ast.parse("self.params.get('replay')", mode="eval").body)
-        pos_is_replay = norm.equivalent(norm.formula(i0.test), rep)
-        neg_is_replay = norm.equivalent(norm.formula(i0.test), norm.neg(rep))
-        rb, nb = (i0.body, i0.orelse) if pos_is_replay else ((i0.orelse, i0.body) if neg_is_replay else (None, None))
-        if rb is None or [ast.unparse(x.value) for x in rb if isinstance(x, ast.Assign)] != ["self.params.get_list('rerun_status', 'fail,error,warn', delimiter=',')"] \
-                or [ast.unparse(x.value) for x in nb if isinstance(x, ast.Assign)] != ["self.params.get_list('rerun_status', []) or all_statuses"]:
+        f = norm.formula(ie.test)
+        rb, nb = (ie.body, ie.orelse) if norm.equivalent(f, rep) else ((ie.orelse, ie.body) if norm.equivalent(f, norm.neg(rep)) else (None, None))
+        if rb is None or ast.unparse(rb) != "self.params.get_list('rerun_status', 'fail,error,warn', delimiter=',')" \
+                or ast.unparse(nb) != "self.params.get_list('rerun_status', []) or all_statuses":
             defaults_ok = False
-            detail.append(("rerun_status selection", ast.unparse(i0.test)))
+            detail.append(("rerun_status selection", ast.unparse(ie.test)))
     else:
         defaults_ok = False
     ctx.record(rule + "d", "CONST", fref, "defaults: max_tries 2 if replay else 1; rerun_status 'fail,error,warn' if replay else all; stop_status none",
